@@ -961,12 +961,17 @@ class System:
             eff, warn, vsi, iso, vso, isi = [], [], [], [], [], []
             domain, phases, ener, dname, group, rail = [], [], [], "none", [], []
             sources, dwarns, rail_in, pstate = {}, {}, [], {}
+            ndom = {}
             show_trise = False
             for n in self._topo_nodes:  # [vi, vo, ii, io]
                 phase_config = self._phase_lkup[n]
                 name = self._g[n]._params["name"]
                 names += [name]
-                dname = self._find_domain(n, dname, v)
+                pdom = "none"
+                if self._parents[n] != -1:
+                    pdom = ndom[self._parents[n][0]]
+                dname = self._find_domain(n, pdom, v)
+                ndom[n] = dname
                 domain += [dname]
                 phases += [ph]
                 group += [self._g.attrs["groups"][name]]
